@@ -319,6 +319,12 @@ func (x *Exec) specIdent(env *SpecEnv, e *EIdent) Value {
 		if g, ok := env.st.ghost[key]; ok {
 			return sc(g)
 		}
+		// the loop was rewritten from `range` to a counting loop `for v := 0; ...; v++`: the iteration index is v
+		if v := x.countingLoopVar(env.loopOrd); v != nil {
+			if val, ok := env.st.vars[v]; ok {
+				return val
+			}
+		}
 		fail("spec: $i used outside a range loop (loop %d)", env.loopOrd)
 	case "nil":
 		return sc(Int(0))
@@ -346,6 +352,15 @@ func (x *Exec) specIdent(env *SpecEnv, e *EIdent) Value {
 		if obj == nil {
 			if nn := x.eng.aliasNew(x.key, name); nn != "" {
 				obj = x.lookupGo(nn, env.pos)
+			}
+		}
+		if obj == nil {
+			// the recorded loop at this ordinal was `for name := 0; ...` and is now a range loop without that variable:
+			// the name denotes the iteration index
+			if ord := x.eng.recordedCountingVar(x.key, name, env.loopOrd); ord > 0 {
+				if g, ok := env.st.ghost[fmt.Sprintf("$i%d", ord)]; ok {
+					return sc(g)
+				}
 			}
 		}
 		if obj != nil {
